@@ -114,7 +114,7 @@ class Guitar(Instrument):
         Instrument.__init__(self)
 
     def can_play_notes(self, notes):
-        if hasattr(notes, "__len__") and len(notes) > 6:
+        if not isinstance(notes, six.string_types) and hasattr(notes, "__len__") and len(notes) > 6:
             return False
         return Instrument.can_play_notes(self, notes)
 
